@@ -14,7 +14,7 @@ Section All.
   Hypothesis ptext_word : forall p s x, parse_double (up (v_ptext E p s x)) = Some (rd p x).
   Hypothesis atext_word : forall ap z x, parse_double (up (v_atext E ap z x)) = Some (rda ap z x).
   Hypothesis itext_int : forall z, (0 <= z <= 2147483647)%Z -> parse_int (v_itext E z) = Some z.
-  Hypothesis rd_sign : forall p x, xle (v_val E x) xq0 = false -> xle (rd p x) xq0 = false.
+  Hypothesis rd_sign : forall p x, xlt xq0 (v_val E x) = true -> xlt xq0 (rd p x) = true.
   (* number-text layer, NPD fields *)
   Hypothesis ptext_field : forall p s x, field_double (v_ptext E p s x) = Some (rd p x).
   Hypothesis atext_field : forall ap z x, field_double (v_atext E ap z x) = Some (rda ap z x).
